@@ -528,6 +528,38 @@ pub fn drive(a: &Args) {
         let _ = hno;
         out.emit(json!({"op":"history","via":"manager-long","events":h.ev}));
     }
+    // scale: an expression with more than 2^16 derivative classes (one-character strings over 65 792 isolated
+    // code points 0, 2, 4, ...), queried in two different orders on two managers
+    let groups: Vec<T> = (0..257u32)
+        .map(|g| T::Not(Box::new(T::AndL((0..256u32).map(|j| T::Not(Box::new(T::Chr(2 * (g * 256 + j))))).collect()))))
+        .collect();
+    let big = T::AltL(groups);
+    let queries: Vec<(bool, Vec<u32>)> = vec![
+        (false, vec![2 * 65536]), (true, vec![0, 0]), (true, vec![0]), (false, vec![0]), (false, vec![2 * 65535]),
+        (true, vec![2 * 65535]), (false, vec![2 * 65791]), (false, vec![2 * 65792]), (false, vec![1]), (true, vec![1]),
+        (true, vec![2 * 65536, 7]), (false, vec![]),
+    ];
+    for order in 0..2 {
+        let mut m = ReManager::new();
+        let mut ev = vec![];
+        let r = guarded(|| {
+            let e = big.build(&mut m);
+            let ne = m.complement(e);
+            let mut qs = queries.clone();
+            if order == 1 {
+                qs.reverse();
+            }
+            for (neg, w) in qs {
+                let res = m.str_in_re(&SmtString::from(w.clone()), if neg { ne } else { e });
+                ev.push(json!({"k":"mem","ref":true,"neg":neg,"words":[w],"res":[res]}));
+            }
+            e.num_deriv_classes()
+        });
+        match r {
+            Ok(nc) => out.emit(json!({"op":"scale_history","via":"manager-scale","classes":nc,"shared":big.json(),"events":ev})),
+            Err(msg) => out.emit(json!({"op":"scale_history","via":"manager-scale","classes":0,"shared":{"k":"none"},"events":[{"k":"panic","msg":msg}]})),
+        }
+    }
     let n = out.finish();
     println!("{{\"family\":\"manager-random\",\"records\":{}}}", n);
 }
